@@ -338,13 +338,18 @@ PROPS = {
                       "can fire, the word size passed to Word::from_bits is at most 31, both loops terminate, and the second vector is allocated only after `len` nodes of at least two "
                       "bits each were read (allocation linear in the input); (canonicity) decode_node consumes exactly ncode(returned node) - the function encode_node writes (unit `encode`, "
                       "C01) -, every child reference points strictly backwards, an accepted program's bits are the length prefix followed by its nodes' codes, no hidden root repeats, and "
-                      "ConstructNode::decode accepts only inputs that end in fewer than eight zero padding bits (trailing bytes and non-zero padding rejected, via BitIter::close's contract).",
+                      "ConstructNode::decode accepts only inputs that end in fewer than eight zero padding bits (trailing bytes and non-zero padding rejected, via BitIter::close's contract). "
+                      "The two decoders users call are under contract too: CommitNode::decode returns Ok only for such an input AND when the sharing check (is_shared_as::<MaxSharing>, C18) "
+                      "said yes; RedeemNode::decode returns Ok only for such a program stream, after the witness stream passed close(), AND when no two nodes of the finished program - "
+                      "in the sharing the encoding chose (the whole InternalSharing post-order) - have the same identity hash.",
         "level_note": "Assumed contracts: BitIter::{read_bit, read_u2, read_natural, close} as proved in unit bitstream (C13); read_natural::<u32> = the usize instance; read_cmr / read_fail_entropy "
                       "(Kani complete harnesses); Word::from_bits (consumes the word's bits, panics only for n > 31); J::decode (C14's soundness theorem); the node constructors "
                       "(ArcNode::unit .. const_word) are total; HashSet::insert; and the post-order iterator over (usize, &[DecodeNode]): consecutive numbering, yields positions of the slice, "
                       "terminates, yields the root last (C18 proves these for PostOrderIter in general; the instantiation for this slice-position DagLike is assumed). NOT decided: that the "
                       "canonical-order check together with the iterator contract excludes every unused / out-of-order node (the iterator's traversal order is not specified beyond the above), "
-                      "identity-hash sharing checks (CommitNode / RedeemNode::decode), type inference totality, whole-program re-encoding equality incl. witnesses, RedeemNode::decode's witness stream.",
+                      "that distinct identity hashes mean maximal sharing (a statement about the hash), type inference totality, whole-program re-encoding equality incl. witnesses, what Node::convert reads from the witness stream "
+                      "(R8 stand-in convert_with_witness; value typing is C12). Entry points: `with_context(|ctx| ..)` becomes a fresh context, `x.map_err(DecodeError::V)?` is spelled as a match (R1), "
+                      "the finished-program iterator is a stand-in with PostOrderIter::next's contract.",
         "assumptions": [
             "BitIter::{read_bit, read_u2, read_natural::<usize>} contracts (proved under C13); read_natural::<u32> behaves as the usize instance",
             "read_cmr / read_fail_entropy consume 256 / 512 bits (Kani complete harnesses c13_read_cmr_*, c13_read_fail_entropy_complete)",
@@ -354,8 +359,8 @@ PROPS = {
             "post-order iterator over the decoded slice: consecutive numbering, valid positions, termination, root yielded last",
             "inputs shorter than 2^31 bits",
         ],
-        "not_decided": ["unused / out-of-order nodes beyond what the index check and the iterator contract give", "sharing checks by identity hash", "totality of type inference / finalisation",
-                        "whole-program re-encoding equality", "RedeemNode::decode witness stream and its close()"],
+        "not_decided": ["unused / out-of-order nodes beyond what the index check and the iterator contract give", "totality of type inference / finalisation",
+                        "whole-program re-encoding equality", "the witness values Node::convert reads (C12 types them)"],
         "explanation": "",
     },
     "C01": {
